@@ -4,6 +4,10 @@ seeded/<Cxx>-<k+2>/{patch.diff, demo.py, meta.json}.  caught_by is taken from th
 later files override earlier ones for the same (seed, check) pair)."""
 import json, os, shutil, sys
 ROOT = "/verif/seeded"
+INC, OFFSET, ROUND = "_incoming2", 2, 2
+if sys.argv[1:2] == ["--round3"]:
+    INC, OFFSET, ROUND = "_incoming3", 5, 3
+    del sys.argv[1]
 res = {}
 for f in sys.argv[1:]:
     if not os.path.exists(f):
@@ -11,25 +15,28 @@ for f in sys.argv[1:]:
     for seed, checks in json.load(open(f)).items():
         for c, r in checks.items():
             res.setdefault(seed, {})[c] = dict(r, source=os.path.basename(f))
+DUP3 = {"C08/1": "C01-1", "C13/1": "C13-3", "C13/2": "C13-4", "C15/1": "C15-3", "C17/1": "C17-2", "C14/1": "C14-4", "C07/1": "C07-2", "C03/2": "C02-4"}
 DUP = {"C01/1": "C01-1", "C01/3": "C08-1", "C06/1": "C06-2", "C08/2": "C01-2", "C11/3": "C06-2", "C12/1": "C12-1", "C15/3": "C15-2", "C17/1": "C17-1", "C17/2": "C17-2", "C10/2": "C10-1"}
 NOTES = json.load(open(os.path.join(ROOT, "round2_notes.json"))) if os.path.exists(os.path.join(ROOT, "round2_notes.json")) else {}
 out = []
-for pid in sorted(os.listdir(os.path.join(ROOT, "_incoming2"))):
-    d = os.path.join(ROOT, "_incoming2", pid)
+if ROUND == 3:
+    DUP = DUP3
+for pid in sorted(os.listdir(os.path.join(ROOT, INC))):
+    d = os.path.join(ROOT, INC, pid)
     for k in (1, 2, 3):
         if not os.path.exists(os.path.join(d, "patch%d.diff" % k)):
             continue
-        dst = os.path.join(ROOT, "%s-%d" % (pid, k + 2))
+        dst = os.path.join(ROOT, "%s-%d" % (pid, k + OFFSET))
         os.makedirs(dst, exist_ok=True)
         shutil.copy(os.path.join(d, "patch%d.diff" % k), os.path.join(dst, "patch.diff"))
         shutil.copy(os.path.join(d, "demo%d.py" % k), os.path.join(dst, "demo.py"))
         meta = json.load(open(os.path.join(d, "meta%d.json" % k)))
         conf = json.load(open(os.path.join(d, "confirm%d.json" % k)))
-        r = res.get("%s/patch%d.diff" % (pid, k), {})
+        r = res.get("%s%s/patch%d.diff" % ("r3:" if ROUND == 3 else "", pid, k), {})
         caught = sorted(c for c, x in r.items() if x.get("rc") == 1)
         missed = sorted(c for c, x in r.items() if x.get("rc") == 0)
-        m = {"property": pid, "round": 2, "breaks": meta.get("what"), "needs_to_manifest": meta.get("needs"), "files_changed": meta.get("files_changed"),
-             "origin": "independent sub-agent given only the property text and a scratch worktree (round 2: three changes per property at different sites)",
+        m = {"property": pid, "round": ROUND, "breaks": meta.get("what"), "needs_to_manifest": meta.get("needs"), "files_changed": meta.get("files_changed"),
+             "origin": "independent sub-agent given only the property text and a scratch worktree (round %d: %s changes per property at different sites)" % (ROUND, "three" if ROUND == 2 else "two"),
              "confirmed": dict({"how": "tools/confirm_seed.sh in a scratch worktree of /repo HEAD (outside /repo and /verif): git apply; demo on clean tree (exit 0); demo with patch (exit != 0); full pytest suite with patch"}, **conf),
              "caught_by": caught, "not_caught_by": missed,
              "check_runs": {c: {"exit": x.get("rc"), "violation_lines": x.get("n_violation_lines"), "first": (x.get("violations") or [""])[0][:300], "wall_s": x.get("wall"), "matrix": x.get("source")} for c, x in sorted(r.items())},
@@ -40,6 +47,6 @@ for pid in sorted(os.listdir(os.path.join(ROOT, "_incoming2"))):
         if key in NOTES:
             m["detection_note"] = NOTES[key]
         json.dump(m, open(os.path.join(dst, "meta.json"), "w"), indent=1)
-        out.append(("%s-%d" % (pid, k + 2), caught, missed, DUP.get(key, "")))
+        out.append(("%s-%d" % (pid, k + OFFSET), caught, missed, DUP.get(key, "")))
 for o in out:
     print("%-7s caught_by=%-14s missed_by=%-12s %s" % (o[0], ",".join(o[1]) or "-", ",".join(o[2]) or "-", ("same mechanism as " + o[3]) if o[3] else ""))
